@@ -68,6 +68,46 @@ func ruleStage1Loop(c *Ctx) {
 			badLeave = "the loop is left although input remains and no error was recorded" + condsDesc(sp, 5)
 		}
 	}
+	// the strip of a dangling last entry: the entry taken off is the last one of this buffer, the position goes back by
+	// exactly that entry, and the buffer's length by one
+	badStrip, nStrip := "", 0
+	for _, sp := range sps {
+		if !sp.Feasible() || !sp.Continues {
+			continue
+		}
+		var strip *SymEffect
+		for k := range sp.Effects {
+			ef := &sp.Effects[k]
+			if ef.Kind == "store" && ef.Target == "L:stripped_index" && !(ef.Val.IsConst() && ef.Val.K == -1) {
+				strip = ef
+			}
+		}
+		if strip == nil {
+			continue
+		}
+		nStrip++
+		S, single := strip.Val.SingleAtom()
+		if !single || !strings.Contains(S, "[lit:indexChan{}.length@find_structural_bits_in_slice") || !strings.HasSuffix(S, "-1]") {
+			badStrip = "the entry saved for the next round is " + trunc(strip.Val.String(), 80) + ", expected the last entry of this buffer (indexes[length-1])"
+			continue
+		}
+		okPos, okLen := false, false
+		for _, ef := range sp.Effects {
+			if ef.Kind == "store" && ef.Target == "L:position" && ef.At > strip.At && ef.Val.T[S] == -1 {
+				okPos = true
+			}
+			if ef.Kind == "store" && strings.HasSuffix(ef.Target, "indexChan{}.length") && ef.At > strip.At && ef.Val.K == -1 && len(ef.Val.T) == 1 {
+				okLen = true
+			}
+		}
+		if !okPos {
+			badStrip = "after taking the last entry off the buffer the running position is not moved back by that same entry (it must be computed from the entry just read, not from the previous round's)" + condsDesc(sp, 3)
+		}
+		if !okLen {
+			badStrip = "the buffer length is not reduced by one when its last entry is held back"
+		}
+	}
+	c.Check(badStrip == "" && nStrip >= 2, "findStructuralIndices:loop-strip", p.Pos(loop), "held-back entry = indexes[length-1]; position -= that entry; length -= 1", "findStructuralIndices: "+badStrip, "a document whose index buffer ends on the opening quote of a string")
 	c.Check(badLeave == "" && nLeave >= 2, "findStructuralIndices:loop-exit", p.Pos(loop), "left only when the input is exhausted or the error mask was set", "findStructuralIndices: "+badLeave+" — the rest of the document is never indexed, yet the terminator is sent and the result depends only on the error mask", "a document larger than the condition that triggers the exit")
 	c.Check(badCont == "" && nCont >= 2, "findStructuralIndices:loop-step", p.Pos(loop), "every continuing iteration sends its index buffer and advances the input", "findStructuralIndices: "+badCont, "a document of more than one index buffer")
 }
